@@ -52,7 +52,7 @@ def run(res, tier):
         "RF modulation / noise are not part of the lattice (the modulation phase is a function of the time since program start, which a results file does not carry)",
         "a start file of another grid size is not a C11 refusal case (not listed in the statement); it is covered as a memory-safety case by C17"]
     exe = pl.build.build_bin("plain")
-    ns = [16, 24] if tier == "thorough" else [16]
+    ns = [16, 24] if vlib.wide(tier) else [16]
     imps = ["none", "collimator"]
     renorms = [-1, 0, 3, 4]
     pl.warm(exe, [base(n, i) + ["-T", 0.125, "-n", 1] for n in ns for i in imps], "c11warm")
@@ -80,10 +80,10 @@ def run(res, tier):
     cases = []
     for g in groups:
         for t1 in range(1, TOTAL):
-            for sr in (srecs if (g[0] == 16 and g[1] == "collimator" and g[3] == 0 and g[4] == "file") or (tier == "thorough" and g[3] == 0 and g[4] == "file") else [None]):
+            for sr in (srecs if (g[0] == 16 and g[1] == "collimator" and g[3] == 0 and g[4] == "file") or (vlib.wide(tier) and g[3] == 0 and g[4] == "file") else [None]):
                 cases.append((g, t1, sr, 1))
     # the first leg written with a coarser phase-space cadence: the final state is stored regardless, "the last record" is the state at T1
-    for g in [(16, "collimator", -1, 0, "file"), (16, "none", 0, 0, "gauss")] + ([(24, "collimator", -1, 0, "gauss")] if tier == "thorough" else []):
+    for g in [(16, "collimator", -1, 0, "file"), (16, "none", 0, 0, "gauss")] + ([(24, "collimator", -1, 0, "gauss")] if vlib.wide(tier) else []):
         for t1 in range(1, TOTAL):
             for sv in (2, 3):
                 cases.append((g, t1, None, sv))
